@@ -897,7 +897,9 @@ func marshalTo(read *binary.BinaryProtocol, write *binary.BinaryProtocol, from *
 				return wrapError(meta.ErrRead, "", err)
 			}
 			write.Buf, pos = binary.AppendSpeculativeLength(write.Buf)
-			marshalTo(read, write, fromDesc, toDesc, opts, subMessageLen)
+			if err := marshalTo(read, write, fromDesc, toDesc, opts, subMessageLen); err != nil {
+				return err
+			}
 			write.Buf = binary.FinishSpeculativeLength(write.Buf, pos)
 		} else {
 			start := read.Read
